@@ -56,6 +56,8 @@ def main():
         rc, out = sh(["git", "apply", patch], cwd=wt)
         assert rc == 0, "patch does not apply: " + out
         touched = sorted(set(os.path.dirname(l[6:]) or "." for l in open(patch) if l.startswith("+++ b/")))
+        # only directories that are Go packages (capnpc-go/templates holds template text only)
+        touched = [t for t in touched if any(f.endswith(".go") for f in os.listdir(os.path.join(wt, t)))]
         pk = " ".join("./" + t + "/" for t in touched)
         rcs, outs = sh("go build ./... && go test -vet=off -count=1 %s" % pk, cwd=wt)
         meta["suite_with_change"] = "pass" if rcs == 0 else "FAIL"
@@ -77,6 +79,10 @@ def main():
         assert out.strip() == "", "/repo not clean: " + out
         rc, out = sh(["git", "-C", REPO, "apply", patch])
         assert rc == 0, out
+        saved = {}
+        for c in checks:   # evidence files must only ever hold clean-tree runs: keep and restore them
+            ep = os.path.join(VERIF, "evidence", c + ".json")
+            saved[ep] = open(ep).read() if os.path.exists(ep) else None
         try:
             for c in checks:
                 t0 = time.time()
@@ -86,6 +92,11 @@ def main():
         finally:
             sh(["git", "-C", REPO, "checkout", "--", "."])
             sh(["git", "-C", REPO, "clean", "-fdq"])
+            for ep, content in saved.items():
+                if content is not None:
+                    open(ep, "w").write(content)
+            # generated Coq files were regenerated from the patched tree: restore the committed ones
+            sh(["git", "-C", VERIF, "checkout", "--", "coq/Gen"])
     meta["checks"] = results
     meta["detected_by"] = [c for c, r in results.items() if r["exit"] != 0 and r["violations"]]
     d = os.path.join(VERIF, "seeded", "%s-%s%s" % (prop, tag, n))
